@@ -459,6 +459,27 @@ theorem kCalc_vant_hoff (f : TransFns Rat) (k0 dh tk : Rat) :
   rw [e]
   constructor <;> grind
 
+/-! ## 6c. sites related to a kinetic reactant over a history of calculations -/
+
+/-- **site_drift_bound**: after `n` calculations the sites differ from `proportion × amount of the reactant` by at most
+the initial difference plus `n·tolS` — the bound the check applies to kinetic-related surfaces over histories -/
+theorem site_drift_bound (prop tolS : Rat) (steps : List (Rat × Rat)) (s m : Rat) (h : followsSteps prop tolS s m steps) :
+    (s - prop * m) - steps.length * tolS ≤ (finalOf s m steps).2 - prop * (finalOf s m steps).1 ∧
+    (finalOf s m steps).2 - prop * (finalOf s m steps).1 ≤ (s - prop * m) + steps.length * tolS := by
+  induction steps generalizing s m with
+  | nil => simp only [finalOf, List.length_nil]; grind
+  | cons st rest ih =>
+    obtain ⟨h1, h2⟩ := h
+    have := ih st.2 st.1 h2
+    simp only [finalOf, List.length_cons]
+    have hc : ((rest.length + 1 : Nat) : Rat) = (rest.length : Rat) + 1 := by simp
+    rw [hc]
+    grind
+
+example : followsSteps (1 / 5) (1 / 1000) (8 / 10) 4 [(5 / 2, 1 / 2), (1, 2001 / 10000)] := by
+  simp only [followsSteps]; decide +kernel
+example : (finalOf (8 / 10) 4 [(5 / 2, 1 / 2), (1, 2001 / 10000)]) = (1, 2001 / 10000) := by decide +kernel
+
 /-! ## 7. activity convention of surface species -/
 
 /-- `moles = 10^lm` and `lg = log10(equiv/sites)`: the log activity `lm + lg` the mass-action law speaks about is the
